@@ -19,6 +19,9 @@ def main():
     if a.tier not in ('quick', 'thorough'):
         a.tier = 'quick'
     try:
+        if a.prop == 'selftest':
+            from . import selftest
+            return selftest.main()
         if a.replay:
             from . import replay
             return replay.main(a.prop, a.replay)
